@@ -400,9 +400,10 @@ Print Assumptions model_passes_judgement.
 (* prop_ok of a router case, unfolded *)
 Theorem prop_ok_router_meaning : forall c,
   r_prop_ok c = true <->
-  (one_var_name_per_position (table_of (cregs c)) = true ->
-   map accepted (cregobs c) = map accepted (reg_results [] (cregs c)) /\
-   Forall (req_judged (table_of (cregs c)) (cnf c) (cna c)) (creqs c)).
+  ((one_var_name_per_position (table_of (cregs c)) = true ->
+    map accepted (cregobs c) = map accepted (reg_results [] (cregs c))) /\
+   Forall (fun q => one_var_name_per_position (table_at_req c q) = true ->
+                    req_judged (table_at_req c q) (cnf c) (cna c) q) (creqs c)).
 Proof. exact L_r_prop_ok_iff. Qed.
 Print Assumptions prop_ok_router_meaning.
 
